@@ -133,6 +133,7 @@ func init() {
 			}
 		}
 		addNet := func(n anet, why string) bool {
+			tick()
 			ipn := n.ipnet()
 			got := util.IntersectsIANAReserved(ipn)
 			if !n.v6 {
@@ -282,7 +283,16 @@ func init() {
 			{"2606:4700:4700::1111", "2606:4700:4700::1111", "2002:808:808::1"}, {"1.1.1.1", "8.8.8.8", "9.9.9.9", "192.168.1.1"}} {
 			directed = append(directed, t)
 		}
-		for i := 0; i < nLint+len(directed); i++ {
+		// and every address of the pool as the subject common name, in lower and upper case
+		var cnDirected []string
+		for _, a := range ipPool {
+			cnDirected = append(cnDirected, a)
+			if up := strings.ToUpper(a); up != a {
+				cnDirected = append(cnDirected, up)
+			}
+		}
+		cnDirected = append(cnDirected, "fd12:3456:789a::1", "FD00::25", "Fe80::1", "a::", "::ffff:10.0.0.1", "0:0:0:0:0:0:0:1", "010.0.0.1", "10.0.0.1.", " 10.0.0.1")
+		for i := 0; i < nLint+len(directed)+len(cnDirected); i++ {
 			tmpl := leafTemplate()
 			tmpl.NotAfter = time.Date(2024, 9, 1, 0, 0, 0, 0, time.UTC)
 			var ips []net.IP
@@ -310,7 +320,11 @@ func init() {
 			}
 			tmpl.IPAddresses = ips
 			cnIP := ""
-			if rng.Intn(3) == 0 {
+			if i >= nLint+len(directed) {
+				cnIP = cnDirected[i-nLint-len(directed)]
+				tmpl.Subject.CommonName = cnIP
+				tmpl.IPAddresses = nil
+			} else if rng.Intn(3) == 0 {
 				cnIP = pick(rng, ipPool)
 				tmpl.Subject.CommonName = cnIP
 			}
